@@ -1,5 +1,5 @@
 """C04 - never more than `fanout` remote commands are in flight."""
-import os, json
+import os, json, time
 import vlib, schedeng
 
 PROP = "C04"
@@ -157,6 +157,21 @@ def run(ctx, prop=PROP, judge=judge_c04, title="peak connections in flight <= fa
     if prop == "C04" and nsched < 5:
         nexec, ebad = exec_concurrency(ctx, quick)
         bad += ebad
+        # a worker thread that could not be created must not occupy a slot: pdsh may give up, it may not wait for it
+        for k in range(40 if quick else 800):
+            if bad >= 6:
+                break
+            n = r.range(2, 6)
+            f = r.range(1, n)
+            hosts = [("h%d" % i, "o", "A" + (b"o%d\n" % i).hex(), "-", 0) for i in range(n)]
+            ru = eng.run(["-R", "sim", "-f", str(f), "-w", "h[0-%d]" % (n - 1), "cmd"], hosts, seed=r.next() % (1 << 31), spur=r.choice([0, 1]), ptick=0,
+                         env={"SCHED_MAXSTEP": "30000", "SCHED_PCFAIL": str(r.range(1, n))}, timeout=10)
+            if ru.deadlock or ru.exit is None:
+                bad += 1
+                ctx.violation("schedule", case={"n": n, "f": f, "args": ru.args, "hosts": ru.hosts, "seed": ru.seed, "spur": ru.spur, "engine_env": getattr(ru, "env", {}),
+                                                "schedule": [c for c in ru.choices if c != "sig"]},
+                              expected="a slot is held only by a command that was started", observed=ru.summary(), engine="sched",
+                              detail="after a worker thread could not be created the dispatcher waits for ever with nothing in flight (the slot of a thread that never existed is never released); trace tail: " + " | ".join(ru.lines[-10:]))
     nsig = 0
     if prop == "C03" and nsched < 5:
         nsig, sbad = interrupted_runs(ctx, eng, r, quick)
@@ -228,6 +243,68 @@ def exec_concurrency(ctx, quick):
             nbad += 1
             ctx.violation("input", case={"transport": "exec", "n": n, "f": f, "options": opts, "command": cmd, "stdin": stdin}, expected="at most %d commands alive at any instant" % f,
                           observed=problem, engine="exec", detail=problem + " (commands that close their streams early; between their stamps: %s)" % body)
+    # the prompt loop (commands read from standard input): while the process that runs the first command line is stopped for a
+    # moment, the loop must not go on to the next line - its commands would run on top of those still alive
+    import subprocess, signal, shutil
+    shutil.rmtree(logd, ignore_errors=True)
+    os.makedirs(logd)
+    line = "exec 0<&- 1>&- 2>&-; date +%%s%%N > %s/%%h.%d.s; sleep 2; date +%%s%%N > %s/%%h.%d.e\n"
+    p = subprocess.Popen([os.path.join(real.dir, "bin", "pdsh"), "-R", "exec", "-f", "2", "-w", "h[1-4]"], env={"PATH": "/usr/bin:/bin", "HOME": "/root", "LANG": "C"},
+                         stdin=subprocess.PIPE, stdout=subprocess.PIPE, stderr=subprocess.PIPE)
+    try:
+        p.stdin.write(((line % (logd, 1, logd, 1)) + (line % (logd, 2, logd, 2))).encode()); p.stdin.close()
+    except OSError:
+        pass
+    time.sleep(0.8)
+    kids = []
+    for pid in os.listdir("/proc"):
+        if pid.isdigit():
+            try:
+                st = open("/proc/%s/stat" % pid).read().rsplit(")", 1)[1].split()
+                cl = open("/proc/%s/cmdline" % pid, "rb").read()
+            except OSError:
+                continue
+            if st[1] == str(p.pid) and b"pdsh" in cl.split(b"\0")[0]:
+                kids.append(int(pid))
+    for k in kids:
+        os.kill(k, signal.SIGSTOP)
+    time.sleep(1.0)
+    for k in kids:
+        try:
+            os.kill(k, signal.SIGCONT)
+        except OSError:
+            pass
+    nrun += 1
+    try:
+        p.stdin = None
+        p.communicate(timeout=60)
+    except subprocess.TimeoutExpired:
+        p.kill(); p.communicate()
+    time.sleep(0.5)
+    iv = []
+    for ln in (1, 2):
+        for k in range(1, 5):
+            try:
+                iv.append((int(open("%s/h%d.%d.s" % (logd, k, ln)).read()), int(open("%s/h%d.%d.e" % (logd, k, ln)).read())))
+            except (OSError, ValueError):
+                iv.append(None)
+    problem = None
+    if not kids:
+        ctx.notes.append("prompt-loop scenario: the process running the command line was not found; not judged")
+    elif any(x is None for x in iv):
+        problem = "start/end stamps %s: a command was not run to its end" % ["ok" if x else "missing" for x in iv]
+    else:
+        pts = sorted([(a, 1) for a, b in iv] + [(b, -1) for a, b in iv])
+        cur = peak = 0
+        for _, d in pts:
+            cur += d
+            peak = max(peak, cur)
+        if peak > 2:
+            problem = "%d commands were alive at the same instant with fanout 2" % peak
+    if problem:
+        nbad += 1
+        ctx.violation("input", case={"transport": "exec", "mode": "prompt loop", "n": 4, "f": 2, "situation": "the process running the first command line is stopped for a second"},
+                      expected="at most 2 commands alive at any instant", observed=problem, engine="exec", detail=problem + " (prompt loop, two command lines, dispatcher stopped and continued)")
     return nrun, nbad
 
 
@@ -241,9 +318,14 @@ def exec_completion(ctx, quick):
     exe = os.path.join(real.dir, "bin", "pdsh")
     mark = os.path.join(ctx.scratch, "done03")
     nbad, nrun = 0, 0
+    shim = os.path.join(ctx.scratch, "slowfork.so")
+    brc, _ = vlib.sh(["gcc", "-shared", "-fPIC", "-O1", os.path.join(vlib.VERIF, "harness", "slowfork.c"), "-ldl", "-o", shim])
     scen = [("no standard input", 4, ["-f", "2"], "echo out-%%h; sleep 0.4; echo end > %s/%%h", "closed", None),
             ("commands close their streams early and outlive -u 1", 3, ["-f", "3", "-u", "1"], "exec 0<&- 1>&- 2>&-; sleep 4; echo end > %s/%%h", None, None),
             ("more targets than the soft descriptor limit", 300, ["-f", "16"], "echo out-%%h; echo end > %s/%%h", None, 256)]
+    if brc == 0:
+        # forty workers at once between "descriptors created" and "child forked" (fork delayed by 0.3 s), soft limit 64, hard limit high
+        scen.append(("forty commands started at once under a soft descriptor limit of 64", 40, ["-f", "40"], "echo out-%%h; echo end > %s/%%h", "slowfork", 64))
     for name, n, opts, cmd, stdin, soft in scen:
         shutil.rmtree(mark, ignore_errors=True)
         os.makedirs(mark)
@@ -256,7 +338,10 @@ def exec_completion(ctx, quick):
                 resource.setrlimit(resource.RLIMIT_NOFILE, (soft, hard))
         import subprocess
         try:
-            p = subprocess.run([exe, "-R", "exec"] + opts + ["-w", "h[1-%d]" % n, "sh", "-c", cmd % mark], env={"PATH": "/usr/bin:/bin", "HOME": "/root", "LANG": "C"},
+            env = {"PATH": "/usr/bin:/bin", "HOME": "/root", "LANG": "C"}
+            if stdin == "slowfork":
+                env.update({"LD_PRELOAD": shim, "SLOWFORK_MS": "300"})
+            p = subprocess.run([exe, "-R", "exec"] + opts + ["-w", "h[1-%d]" % n, "sh", "-c", cmd % mark], env=env,
                                stdout=subprocess.PIPE, stderr=subprocess.PIPE, timeout=90, preexec_fn=pre)
             rc, o, e = p.returncode, p.stdout, p.stderr
         except subprocess.TimeoutExpired:
@@ -278,6 +363,22 @@ def exec_completion(ctx, quick):
             nbad += 1
             ctx.violation("input", case={"transport": "exec", "situation": name, "targets": n, "options": opts, "command": cmd}, expected="every command started once, pdsh returns after the last has ended",
                           observed=problem, engine="exec", detail=problem + " (%s)" % name)
+    # the prompt loop (no command on the command line; commands read from standard input): each command runs on every target and
+    # its output - also a last piece without a newline - is there before the next prompt
+    import subprocess
+    try:
+        p = subprocess.run([exe, "-R", "exec", "-w", "a,b"], input=b"printf tail-%h\necho second-%h\n", env={"PATH": "/usr/bin:/bin", "HOME": "/root", "LANG": "C"},
+                           stdout=subprocess.PIPE, stderr=subprocess.PIPE, timeout=60)
+        rc, o = p.returncode, p.stdout
+    except subprocess.TimeoutExpired:
+        rc, o = -999, b""
+    nrun += 1
+    want = [b"a: tail-a", b"b: tail-b", b"a: second-a\n", b"b: second-b\n"]
+    lost = [w for w in want if w not in o]
+    if rc != 0 or lost or not (o.find(b"tail-") < o.find(b"second-")):
+        nbad += 1
+        ctx.violation("input", case={"transport": "exec", "situation": "prompt loop, two commands on standard input", "targets": 2}, expected="both commands run on both targets, all output delivered in order",
+                      observed="exit %s, output %r" % (rc, o[:200]), engine="exec", detail="prompt loop: missing %r (exit %s)" % (lost, rc))
     return nrun, nbad
 
 
@@ -332,6 +433,10 @@ def interrupted_runs(ctx, eng, r, quick):
             e = "deadlock: no thread can move and pdsh has not exited"
         elif ru.exit is None:
             e = "pdsh did not exit (code %s) %s" % (ru.code, ru.errtxt[-200:])
+        elif ru.exit == 0:
+            never = [i for i in range(n) if ru.hoststats.get("h%d" % i, (0, 0, 0))[0] != 1]
+            if never:
+                e = "pdsh exited 0 although target h%d never got its command" % never[0]
         if e:
             nbad += 1
             rec = {"n": n, "f": f, "args": ru.args, "hosts": ru.hosts, "seed": ru.seed, "spur": ru.spur, "env": {"SCHED_PCFAIL": "?"},
